@@ -139,6 +139,20 @@ CLAIMED = {
              'not absorbed); flag-rewritten and fsp-edited files are compared by presence here (content: C05/C18).',
         technique='Lean 4 specification + theorems on the abstract FS, evaluated against the real prepare stage on every configuration',
         ref='8/C04'),
+    'C07': dict(
+        text='The documented rule families of the dbus directive (own / talk / common) are Lean definitions; Lean theorems: every '
+             'dbus rule of every family is on the named bus, own binds the name, talk/common rules all carry the peer label; exec '
+             'yields exactly one rule per executable (a permutation of the executables, for any comparator); the stacked lines are '
+             'exactly the body lines that are not the base include, the entry point, (unless X) an exec transition, or blank, in '
+             'order. On every run the text of the real dbus directive is read back by an independent reader and compared with the '
+             'Lean families for generated arguments; exec and stack are run through the real directive.Run on generated hosts '
+             '(all transitions, X / non-X, several profiles, a stacked profile with its own directive) and judged against the '
+             'documented selection computed by the Lean line filter; every file of the real builds is scanned for #aa:.',
+        note='Trusted: Lean kernel; the dbus families transcribe dbus.go and are tied by comparison of the generated text (sampling); '
+             'the consumption invariant over a whole build is established by scanning real builds, not by a theorem; the independent '
+             'dbus reader is a regex reader (the reference parser reads the same text in C12).',
+        technique='Lean 4 definitions of the documented expansions + theorems, compared with the real directives on generated arguments; real builds scanned',
+        ref='8/C07'),
 }
 
 REASON_TODO = 'check not built yet in this round; no claim is made (see DESIGN.md section 13)'
